@@ -185,17 +185,37 @@ def build_eval(fam):
     return binp
 
 
-def run_eval(fam, case_lines, timeout=1800):
-    binp = build_eval(fam)
-    data = ("\n".join(case_lines) + "\n").encode()
+def _run_eval_chunk(args):
+    binp, lines, timeout = args
+    data = ("\n".join(lines) + "\n").encode()
     p = subprocess.run([binp], input=data, stdout=subprocess.PIPE, stderr=subprocess.PIPE, timeout=timeout)
     if p.returncode != 0:
-        raise Infra("model evaluator %s failed: %s" % (fam, p.stderr.decode()[-2000:]))
+        return None, p.stderr.decode()[-2000:]
     out = p.stdout.decode("latin-1").split("\n")
     if out and out[-1] == "":
         out.pop()
-    if len(out) != len(case_lines):
-        raise Infra("model evaluator %s: %d outputs for %d cases" % (fam, len(out), len(case_lines)))
+    return out, ""
+
+
+def run_eval(fam, case_lines, timeout=1800, workers=12):
+    """Run the extracted model evaluator on the case lines (in parallel chunks, order preserved)."""
+    binp = build_eval(fam)
+    if not case_lines:
+        return []
+    n = len(case_lines)
+    k = max(1, min(workers, n // 50))
+    size = (n + k - 1) // k
+    chunks = [case_lines[i:i + size] for i in range(0, n, size)]
+    from concurrent.futures import ThreadPoolExecutor
+    with ThreadPoolExecutor(max_workers=len(chunks)) as ex:
+        results = list(ex.map(_run_eval_chunk, [(binp, c, timeout) for c in chunks]))
+    out = []
+    for r, err in results:
+        if r is None:
+            raise Infra("model evaluator %s failed: %s" % (fam, err))
+        out += r
+    if len(out) != n:
+        raise Infra("model evaluator %s: %d outputs for %d cases" % (fam, len(out), n))
     return out
 
 
